@@ -333,6 +333,14 @@ lyd_create_any(const struct lysc_node *schema, const void *value, LYD_ANYDATA_VA
             lyd_create_any_string_valtype(value, &value_type);
         }
 
+        if (value_type == LYD_ANYDATA_STRING) {
+            /* a plain string is not a data tree in any known format */
+            LOGVAL(schema->module->ctx, LYVE_DATA, "Invalid value of anydata \"%s\", a data tree in XML, JSON or LYB format expected.",
+                    schema->name);
+            rc = LY_EVALID;
+            goto cleanup;
+        }
+
         if (value_type != LYD_ANYDATA_DATATREE) {
             /* create input */
             assert(value);
@@ -340,7 +348,7 @@ lyd_create_any(const struct lysc_node *schema, const void *value, LYD_ANYDATA_VA
 
             /* parse as a data tree */
             if ((r = lyd_create_any_datatree(schema->module->ctx, in, value_type, 1, &tree))) {
-                LOGERR(schema->module->ctx, rc, "Failed to parse any content into a data tree.");
+                LOGERR(schema->module->ctx, r, "Failed to parse any content into a data tree.");
                 rc = r;
                 goto cleanup;
             }
